@@ -70,5 +70,5 @@ async def deliver_all(loop, streams, order=None, pause=True):
         tok = streams[si].deliver(i)
         made.append((streams[si].name, "TERM" if i == -1 else tok.tag))
         if pause:
-            await loop.gate("driver")
+            await loop.gate("driver", prio=1)
     return made
